@@ -358,6 +358,10 @@ func init() {
 			for _, m := range []string{"a\\(?i:b.|c\n", "foo\\(?m:$|bar\n", "x.\ny\\(?s:z\n", "^k\\(?i:l|m\n", "a\\(?i:b\n.\n"} {
 				cs = append(cs, &raCase{Prog: &ra.Program{Main: m, Lane: "pinned-escaped-paren-with-flag-group", Files: ra.Files{Include: map[string]string{}, Exclude: map[string]string{}}}})
 			}
+			// stored expressions whose names differ in case or in surrounding blanks only: each name is its own
+			for _, m := range []string{"select\n##!=>\n\\s+\n##!=< WS\nfrom\n##!=>\n\\s*\n##!=< ws\nx\n##!=> WS\ny\n##!=> ws\n;\n", "##!> assemble\n  a\n  ##!=< q\n##!<\n##!> assemble\n  b\n  ##!=< Q\n##!<\nk\n##!=> q\n##!=> Q\n", "one\n##!=< Name\ntwo\n##!=< name\n##!=> Name\n##!=> name\n##!=> Name\n"} {
+				cs = append(cs, &raCase{Prog: &ra.Program{Main: m, Lane: "pinned-stored-names-case", Files: ra.Files{Include: map[string]string{}, Exclude: map[string]string{}}}})
+			}
 			// an entry longer than a 4 KiB buffer, typed and produced by a definition
 			long := strings.Repeat("ab", 2100)
 			for _, m := range []string{long + "\nshort\n", "##!> define big " + long + "\nx{{big}}\nshort\n", "##!> assemble\n  " + long + "c\n  " + long + "d\n##!<\n"} {
